@@ -528,6 +528,100 @@ def native_split(d, case, v):
     return False, "real binary writes the same bytes for both distributions", None
 
 
+# ---- layout: single-file mode does not care where the files live ---------------------------------------------------------------
+LAYOUTS = {
+    "crate-src": ["/w/app/src/a.rs", "/w/app/src/b.rs", "/w/app/src/c.rs"],
+    "examples-and-shared": ["/w/app/src/a.rs", "/w/app/examples/b.rs", "/w/shared/c.rs"],
+    "flat": ["/w/a.rs", "/w/b.rs", "/w/c.rs"],
+    "nested-modules": ["/w/app/src/a.rs", "/w/app/src/models/deep/b.rs", "/w/other/src/c.rs"],
+    "relative-src-root": ["src/a.rs", "src/b.rs", "c.rs"],
+}
+LAYOUT_ITEMS = ["#[typeshare]\npub struct La { pub x: u32 }\n", "#[typeshare]\npub enum Lb { Va, Vb }\n", "#[typeshare]\npub type Lc = Vec<La>;\n"]
+
+
+def case_layout(case):
+    """--output-file: every file through cli parse::parse_dir_entry (file-system model), collector, reconcile: the result does not depend on the directories"""
+    lang_name = case
+    from vlib.mirsym import pharness, synast
+    from vlib.mirsym.models_fs import Fs
+    from vlib.mirsym.models_misc import RPath
+    P = prog()
+    L = P.layout
+    I = new_interp(P)
+    pn = L.structs["ParsedData"]
+    res = {"paths": 0, "violations": [], "case": [lang_name]}
+    names = list(LAYOUTS)
+
+    def run_layout(I, paths):
+        fs = Fs()
+        asts = {}
+        for pth, src in zip(paths, LAYOUT_ITEMS):
+            d = pth.rsplit("/", 1)[0] if "/" in pth else ""
+            if d:
+                fs.add_dir(d)
+            fs.add_file(pth, [ord(c) for c in src])
+            asts[src] = synast.parse_source(P, src)
+        I.env["fs"] = fs
+        I.env["parse_file"] = lambda I_, s_: asts.get(pystr(s_))
+        ctx = pharness.parse_context(P, multi_file=False, prefix="typeshare_core::")
+        lang = EnumV("typeshare_core::language::SupportedLanguage", L.enums["SupportedLanguage"].index(lang_name), [])
+        sent = []
+        for pth in paths:
+            de = Opaque("DirEntry", RPath(S(pth)))
+            r = I.call_static("parse::parse_dir_entry", [Ref([ctx], 0), lang, Ref([de], 0)])
+            if r.variant != 0:
+                raise Unsupported("parse_dir_entry returned Err for " + pth)
+            if r.fields[0].variant == 1:
+                sent.append(r.fields[0].fields[0])
+        if not sent:
+            return None
+        m = collect(I, sent)
+        cell = [m]
+        I.call_static("reconcile::reconcile_aliases", [Ref(cell, 0)])
+        return cell[0]
+
+    def entry(I):
+        return [run_layout(I, LAYOUTS[n]) for n in names]
+
+    def summary(m):
+        if m is None:
+            return None
+        out = []
+        for cn, pd in m.entries:
+            out.append((pystr(cn.fields[0]), tuple(len(pd.fields[pn.index(f)].items) for f in ("structs", "enums", "aliases", "consts"))))
+        return out
+
+    for kind, out, pc in I.explore(entry, max_paths=50):
+        res["paths"] += 1
+        if kind == "panic":
+            res["violations"].append({"kind": "panic", "msg": out.msg}); continue
+        base = summary(out[0])
+        for n, m in zip(names[1:], out[1:]):
+            if summary(m) != base:
+                res["violations"].append({"kind": "layout-dependent", "layout": n, "reference": names[0], "got": summary(m), "want": base})
+                break
+    return finish_case(I, res)
+
+
+def native_layout(d, case, v):
+    import os
+    outs = []
+    for k, n in enumerate((v["reference"], v["layout"])):
+        root = os.path.join(d, "l%d" % k)
+        roots = set()
+        for pth, src in zip(LAYOUTS[n], LAYOUT_ITEMS):
+            rel = pth[len("/w/"):] if pth.startswith("/w/") else pth
+            full = os.path.join(root, rel)
+            os.makedirs(os.path.dirname(full), exist_ok=True)
+            open(full, "w").write(src)
+        rc, out, err = drv().cli([".", "--lang", "typescript", "-o", "out.ts"], root, pin=True)
+        path = os.path.join(root, "out.ts")
+        outs.append((rc, open(path).read() if os.path.exists(path) else None))
+    if outs[0] != outs[1]:
+        return True, "the same three items laid out as %s and as %s (single-file mode) give different output (exit %s / %s; %s vs %s bytes)" % (LAYOUTS[v["reference"]], LAYOUTS[v["layout"]], outs[0][0], outs[1][0], len(outs[0][1] or ""), len(outs[1][1] or "")), {"op": "layout", "v": v}
+    return False, "real binary writes the same bytes for both layouts", None
+
+
 def multisets(kinds, k):
     return list(itertools.combinations_with_replacement(kinds, k))
 
@@ -564,14 +658,16 @@ def run(rep, tier, only=None):
     if tier == "thorough":
         wcases = [(l, f, p) for l in ("typescript", "kotlin") for f in _c14.FORMS for p in (("field", "map-value") if l == "typescript" else ("enum-struct",))]
     else:
-        wcases = [("typescript", "single", "field"), ("kotlin", "same-name-c", "map-value"), ("typescript", "same-name-both-imported", "field"), ("kotlin", "same-name-both-imported", "vec"), ("typescript", "same-name-two-modules", "field")]
+        wcases = [("typescript", "single", "field"), ("kotlin", "same-name-c", "map-value"), ("typescript", "same-name-both-imported", "field"), ("kotlin", "same-name-both-imported", "vec"), ("typescript", "same-name-two-modules", "field"), ("typescript", "same-name-two-modules-renamed", "field"), ("kotlin", "reexport-two-candidates", "field"), ("typescript", "reexport-two-candidates", "vec")]
     rep.bounds["hash-ws"] = "the folder-mode pipeline from source text on %d of the C14 workspace templates under every hash iteration order, up to 700 paths each (beyond: a prefix of the orders, reported as not exhaustive)" % len(wcases)
     names_ = list(SPLIT_ITEMS)
     scases = [(tuple(c), m) for m in (False, True) for c in ([names_[0], names_[1]], [names_[1], names_[2], names_[3]], [names_[4], names_[5], names_[0]], [names_[1], names_[4]])]
     if tier == "thorough":
         scases += [(tuple(c), m) for m in (False, True) for c in itertools.combinations(names_, 4)]
     rep.bounds["split"] = "items annotated in every spelling (%s) distributed over files in every way (all set partitions of 2-3 items; thorough: every 4 of the 6), each file entered through parser::parse (text pre-filter included), folded and reconciled: the normal forms are equal" % sorted(SPLIT_ITEMS)
-    groups = [("fold", "case_fold", cases), ("split", "case_split", scases), ("hash", "case_hash", hcases), ("hash-ws", "case_hash_ws", wcases)]
+    lcases = ["TypeScript", "Swift"] if tier == "quick" else ["TypeScript", "Swift", "Kotlin", "Scala", "Go", "Python"]
+    rep.bounds["layout"] = "--output-file: three items in the directory layouts %s, each file through cli parse::parse_dir_entry on the file-system model, then collector and reconcile_aliases: the same items whatever the layout" % sorted(LAYOUTS)
+    groups = [("fold", "case_fold", cases), ("split", "case_split", scases), ("layout", "case_layout", lcases), ("hash", "case_hash", hcases), ("hash-ws", "case_hash_ws", wcases)]
     for gname, fn, cs in groups:
         if only and gname not in only:
             continue
@@ -590,7 +686,9 @@ def run(rep, tier, only=None):
                     rep.sample({"group": gname, "case": str(case), "paths": r["paths"], "verdict": "normal forms equal for every name assignment (unsat otherwise)" if gname == "fold" else "same bytes on every path"})
                 continue
             for v in r["violations"]:
-                if gname == "split":
+                if gname == "layout":
+                    sig = {"group": "layout", "kind": v["kind"], "layout": v.get("layout")}
+                elif gname == "split":
                     sig = {"group": "split", "kind": v["kind"], "field": v.get("field"), "mode": "folder" if case[1] else "single"}
                 elif gname == "fold":
                     sig = {"group": "fold", "kind": v["kind"], "field": v.get("field"), "equal_names": v.get("equal_names"), "mode": "folder" if case[2] else "single"}
@@ -660,6 +758,8 @@ def native(gname, case, v):
             return native_hash_ws(d, case)
         if gname == "split":
             return native_split(d, case, v)
+        if gname == "layout":
+            return native_layout(d, case, v)
         return native_hash(d, case[0], case[1], case[2] if len(case) > 2 else "basic")
     finally:
         shutil.rmtree(d, ignore_errors=True)
@@ -764,6 +864,8 @@ def replay(body):
     try:
         if c["op"] == "hash-ws":
             ok, why, _ = native_hash_ws(d, (c["lang"], c["form"], c["position"]))
+        elif c["op"] == "layout":
+            ok, why, _ = native_layout(d, None, c["v"])
         elif c["op"] == "split":
             ok, why, _ = native_split(d, (tuple(c["items"]), c["multi"]), c["v"])
         elif c["op"] == "fold":
